@@ -4,7 +4,7 @@
    answer), every rule database, ban list, solver fuel and input list.  The default threshold is
    0, whose key is 0, and every confidence key is >= 0 (A5) -- hence the first hypothesis. *)
 From Coq Require Import String ZArith List Bool.
-From SynRBL Require Import Base.Dict Model.Comp Model.Matcher Model.Pipeline Proofs.PipelineProofs Proofs.RowLocal Proofs.Balanced Proofs.RunLevel Proofs.Declined Model.Impute Proofs.ImputeProofs.
+From SynRBL Require Import Base.Dict Model.Comp Model.Matcher Model.Pipeline Proofs.PipelineProofs Proofs.RowLocal Proofs.Balanced Proofs.RunLevel Proofs.Declined Model.Impute Proofs.ImputeProofs Base.Strs Proofs.CompProofs Proofs.WaterFact Gen.GenSymbols.
 Import ListNotations.
 Open Scope string_scope.
 
@@ -80,6 +80,40 @@ Example run_has_both :
   Some [("C>>C", true, Some M_INPUT, None); ("C>>CC", false, None, Some "No MCS identified.")].
 Proof. vm_compute. reflexivity. Qed.
 
+(* H2 discharged as well (Proofs/WaterFact.v): it follows from two facts about the composition oracle that are C07 THEOREMS for the real
+   decompose -- (A) every composition dictionary is well-formed (unique keys, no zero entry, positive element counts) and (B) appending n
+   water molecules to a side adds n x {H:2, O:1} to its composition.  With the modelled control flow of impute_reaction the two clauses
+   then need no hypothesis about the pipeline's own behaviour at all. *)
+Theorem C03_remaining_clauses_from_composition_facts : forall O I db ban fuel,
+  (forall s, nodupk (decomp O s) /\ wf (decomp O s) /\ pos (decomp O s)) ->
+  (forall p n k, getd (decomp O (p ++ repeat_str ".O" n)) k = (getd (decomp O p) k + Z.of_nat n * water k)%Z) ->
+  forall t tmsg ins rows st, run (refine O I) db ban fuel t tmsg ins = Done (rows, st) ->
+  (forall r, In r rows -> solved r = true -> issue r = None \/ issue r = Some "") /\
+  Forall2 (fun s r => carbon_of O s = CReactants -> solved r = false) (admitted (refine O I) ins) rows.
+Proof.
+  intros O I db ban fuel A B t tmsg ins rows st H.
+  pose proof (water_never_balances (refine O I) A B) as H2.
+  split.
+  - exact (C03_solved_rows_have_empty_or_absent_issue_refined O I db ban fuel H2 t tmsg ins rows st H).
+  - exact (C03_carbon_deficit_declined_refined O I db ban fuel H2 t tmsg ins rows st H).
+Qed.
+
+(* ... and (A), (B) are consequences of C07's theorems about decompose for every reading `par` of SMILES strings as atom lists that reads
+   appended water molecules as appended O, H, H atoms (RDKit's reading is validated against decompose by C07's correspondence) *)
+Theorem C03_composition_facts_are_C07_theorems : forall (tbl : list (Z * string)) (par : string -> list Z * Z),
+  sym tbl 1%Z = "H" -> sym tbl 8%Z = "O" ->
+  (forall p n, par (p ++ repeat_str ".O" n) = ((fst (par p) ++ waters n)%list, snd (par p))) ->
+  (forall s, no_q_atom tbl (fst (par s))) ->
+  (forall s, nodupk (decomp_of tbl par s) /\ wf (decomp_of tbl par s) /\ pos (decomp_of tbl par s)) /\
+  (forall p n k, getd (decomp_of tbl par (p ++ repeat_str ".O" n)) k = (getd (decomp_of tbl par p) k + Z.of_nat n * water k)%Z).
+Proof.
+  intros tbl par H1 H8 PW NQ. split.
+  - intros s. apply facts_A.
+  - intros p n k. apply (facts_B tbl H1 H8 par PW NQ).
+Qed.
+Example generated_table_reads_H_and_O : sym (Gen.GenSymbols.atomic_symbols ++ Gen.GenSymbols.rdkit_symbols) 1%Z = "H" /\ sym (Gen.GenSymbols.atomic_symbols ++ Gen.GenSymbols.rdkit_symbols) 8%Z = "O".
+Proof. split; vm_compute; reflexivity. Qed.
+
 (* non-vacuity of the refined theorems: a refined oracle record whose run has an MCS-solved row (empty issue) and a declined
    carbon-deficit row *)
 Definition O1 : oracles :=
@@ -102,3 +136,5 @@ Print Assumptions C03_solved_rows_have_empty_or_absent_issue.
 Print Assumptions C03_carbon_deficit_declined.
 Print Assumptions C03_solved_rows_have_empty_or_absent_issue_refined.
 Print Assumptions C03_carbon_deficit_declined_refined.
+Print Assumptions C03_remaining_clauses_from_composition_facts.
+Print Assumptions C03_composition_facts_are_C07_theorems.
